@@ -31,5 +31,5 @@ FUZZ_QUICK = 200
 
 
 def extra_checks(tier, seed, opens):
-    from bounded import c19_eval
-    return [c19_eval.run(tier, seed, opens)]
+    from bounded import c19_eval, c19_sigops
+    return [c19_eval.run(tier, seed, opens), c19_sigops.run(tier, seed, opens)]
